@@ -40,8 +40,9 @@ func (v *loggerPlus) Printf(ctx Context, format string, a ...interface{}) {
 }
 
 func (v *loggerPlus) contextFormat(ctx Context, a ...interface{}) []interface{} {
-	if ctx, ok := ctx.(context.Context); ok {
-		if cid, ok := ctx.Value(cidKey).(int); ok {
+	// @remark Do not shadow the ctx, for the else branch needs the original object.
+	if cctx, ok := ctx.(context.Context); ok {
+		if cid, ok := cctx.Value(cidKey).(int); ok {
 			return append([]interface{}{fmt.Sprintf("[%v][%v]", os.Getpid(), cid)}, a...)
 		}
 	} else {
@@ -51,8 +52,9 @@ func (v *loggerPlus) contextFormat(ctx Context, a ...interface{}) []interface{} 
 }
 
 func (v *loggerPlus) contextFormatf(ctx Context, format string, a ...interface{}) (string, []interface{}) {
-	if ctx, ok := ctx.(context.Context); ok {
-		if cid, ok := ctx.Value(cidKey).(int); ok {
+	// @remark Do not shadow the ctx, for the else branch needs the original object.
+	if cctx, ok := ctx.(context.Context); ok {
+		if cid, ok := cctx.Value(cidKey).(int); ok {
 			return "[%v][%v] " + format, append([]interface{}{os.Getpid(), cid}, a...)
 		}
 	} else {
